@@ -41,7 +41,16 @@ WITNESS = {
   'tripcount': ('samlang-optimization', 'crates/samlang-optimization/src/loop_algebraic_optimization.rs', 'wx/witness/samlang_optimization_tripcount.rs', 'verif_witness_search'),
   # thorough-tier exploration without a unit of its own (registry: 'thorough_witness')
   'parser_terminates': ('samlang-parser', 'crates/samlang-parser/src/lib.rs', 'wx/witness/samlang_parser_lib.rs', 'verif_witness_search_parser_terminates'),
+  'ccploop': ('samlang-compiler', 'crates/samlang-compiler/src/lib.rs', 'wx/witness/samlang_compiler_exec.rs', 'verif_witness_search_exec_optimizer'),
+  'lvnscope': ('samlang-compiler', 'crates/samlang-compiler/src/lib.rs', 'wx/witness/samlang_compiler_exec.rs', 'verif_witness_search_exec_optimizer'),
+  'escape': ('samlang-compiler', 'crates/samlang-compiler/src/lib.rs', 'wx/witness/samlang_compiler_exec.rs', 'verif_witness_search_exec_optimizer'),
+  'csehoist': ('samlang-compiler', 'crates/samlang-compiler/src/lib.rs', 'wx/witness/samlang_compiler_exec.rs', 'verif_witness_search_exec_optimizer'),
+  'licm': ('samlang-compiler', 'crates/samlang-compiler/src/lib.rs', 'wx/witness/samlang_compiler_exec.rs', 'verif_witness_search_exec_optimizer'),
+  'ivelim': ('samlang-compiler', 'crates/samlang-compiler/src/lib.rs', 'wx/witness/samlang_compiler_exec.rs', 'verif_witness_search_exec_optimizer'),
   # quick-tier exploration without a unit of its own (registry: 'quick_witness')
+  'exec_backends': ('samlang-compiler', 'crates/samlang-compiler/src/lib.rs', 'wx/witness/samlang_compiler_exec.rs', 'verif_witness_search_exec_backends'),
+  'exec_semantics': ('samlang-compiler', 'crates/samlang-compiler/src/lib.rs', 'wx/witness/samlang_compiler_exec.rs', 'verif_witness_search_exec_semantics'),
+  'exec_optimizer': ('samlang-compiler', 'crates/samlang-compiler/src/lib.rs', 'wx/witness/samlang_compiler_exec.rs', 'verif_witness_search_exec_optimizer'),
   'printmods': ('samlang-printer', 'crates/samlang-printer/src/lib.rs', 'wx/witness/samlang_printer_modules.rs', 'verif_witness_search_modules'),
   'parsetok': ('samlang-parser', 'crates/samlang-parser/src/lib.rs', 'wx/witness/samlang_parser_lib.rs', 'verif_witness_search_import_ranges'),
   'prodloc': ('samlang-parser', 'crates/samlang-parser/src/lib.rs', 'wx/witness/samlang_parser_lib.rs', 'verif_witness_search_type_parameter_ranges'),
